@@ -309,6 +309,24 @@ class Env:
         def _(g, a, rt):
             return z3.If(self.error_indicator() != 0, z3.BitVecVal(1, 32), z3.BitVecVal(0, 32))
 
+        @stub('PyObject_RichCompareBool')
+        def _(g, a, rt):
+            def ival(p):
+                gh = self.ghost_of(p)
+                if gh and gh.get('kind') == 'int':
+                    return gh['value']
+                regs = [ex.regions[r] for r in p.regions if r in ex.regions and r != 0]
+                if len(regs) == 1 and regs[0].name in ('G:_Py_FalseStruct', 'G:_Py_TrueStruct'):
+                    return z3.BitVecVal(0 if 'False' in regs[0].name else 1, WIDE)
+                return None
+            x, y = ival(a[0]), ival(a[1])
+            op = z3.simplify(a[2])
+            self.event(g, 'PyObject_RichCompareBool', a)
+            if x is None or y is None or not z3.is_bv_value(op):
+                return ex.fresh_of(rt, 'richcmp')
+            c = {0: x < y, 1: x <= y, 2: x == y, 3: x != y, 4: x > y, 5: x >= y}[op.as_long()]
+            return z3.If(c, z3.BitVecVal(1, 32), z3.BitVecVal(0, 32))
+
         @stub('memcmp', 'strcmp', 'strlen')
         def _(g, a, rt):
             e = self.event(g, 'libc', a)
